@@ -3,6 +3,8 @@ package clisim
 import (
 	"encoding/json"
 	"fmt"
+	"os"
+	"path/filepath"
 	"sort"
 	"strings"
 
@@ -183,7 +185,7 @@ func C11CLI(r *simkit.Run) {
 	}
 	actions := t.Range("actions", 2, 7)
 	for a := 0; a < actions && !r.Failed(); a++ {
-		switch t.Weighted("action", 5, 2, 2, 1, 1, 2, 3, 2) {
+		switch t.Weighted("action", 5, 2, 2, 1, 1, 2, 3, 2, 2) {
 		case 1:
 			c.add(t, c.maxIdx()+1+t.Draw("gap", 2), false, t.Chance("bad-stmt", 1, 4))
 			r.Logf("add newer -> %s", c.dirDesc())
@@ -239,6 +241,27 @@ func C11CLI(r *simkit.Run) {
 			}
 			r.Logf("fix files=%v", fixed)
 			r.Sample("operator fixes the failing statements and re-hashes")
+			continue
+		case 8: // squash: the files the newest checkpoint replaces are removed from the directory
+			ck := -1
+			for i, f := range c.files {
+				if c.ck[f.Idx] {
+					ck = i
+				}
+			}
+			if ck <= 0 {
+				continue
+			}
+			for _, f := range c.files[:ck] {
+				os.Remove(filepath.Join(w.Mig, f.Name))
+				delete(c.ck, f.Idx)
+			}
+			c.files = append([]*MFile(nil), c.files[ck:]...)
+			w.Seal()
+			r.Probe("files-squashed-into-checkpoint")
+			r.Logf("squash -> %s", c.dirDesc())
+			r.Sample("the files older than the newest checkpoint are deleted (squash) -> dir: %s", c.dirDesc())
+			c.checkStatus(w.Observe(), "after squash")
 			continue
 		case 7: // the process dies inside `migrate apply --tx-mode none`: a partial revision without an error text
 			points := []string{"exec:after-stmt-write", "exec:before-stmt", "exec:after-stmt", "exec:after-init-write"}
@@ -466,6 +489,12 @@ func (c *c11w) checkStatus(d *observe.Dump, when string) {
 	}
 	dec := model.Pending(c.modelFiles(), revs, o)
 	if dec.Err == model.NotClean || dec.Err == model.MissingFile {
+		return
+	}
+	// A partially applied revision whose file was deleted cannot be reported on (nor resumed):
+	// status refusing with "not found" is the documented missing-migration outcome.
+	if n := len(revs); n > 0 && revs[n-1].Partial() && c.byVersion(revs[n-1].Version) == nil {
+		r.Probe("partial-revision-whose-file-was-deleted")
 		return
 	}
 	res := w.Atlas(nil, "migrate", "status", "--dir", w.DirURL(), "--url", w.URL(), "--format", "{{ json . }}")
